@@ -320,8 +320,11 @@ fn run_art(c: &ArtCase) -> Outcome {
             ] {
                 for seed in [1u64, 2, 5] {
                     let other = common::cert(kind, seed);
+                    // certificates generated from the same seed can share their subkey material (the
+                    // rng stream is the same after primaries of equal size): not "another" key then
                     let ok = other.primary_key.fingerprint() != a.cert.primary_key.fingerprint()
-                        && other.primary_key.fingerprint() != a.other.primary_key.fingerprint();
+                        && other.primary_key.fingerprint() != a.other.primary_key.fingerprint()
+                        && other.secret_subkeys[0].key.public_key().to_bytes().ok() != a.cert.secret_subkeys[0].key.public_key().to_bytes().ok();
                     if !ok {
                         continue;
                     }
@@ -600,6 +603,59 @@ fn run_cert(c: &CertCase) -> Outcome {
             }
         }
     }
+    // a forged copy of each signature packet (one bit of its hashed area / of its signature value
+    // changed) placed next to the genuine one: a certificate that carries a forged certification
+    // or binding must not come out as verified with that packet in it
+    if c.phase == 0 {
+        if let Ok(ps) = codec::split_packets(&bytes) {
+            let mut offsets = Vec::new();
+            let mut at = 0usize;
+            for (tag, hdr, body) in &ps {
+                offsets.push((at, *tag, hdr.len(), body.len()));
+                at += hdr.len() + body.len();
+            }
+            for (start, tag, hl, bl) in offsets {
+                if tag != 2 {
+                    continue;
+                }
+                let pkt = &bytes[start..start + hl + bl];
+                for (what, flip_at) in [("signature value", hl + bl - 1), ("hashed area", hl + 7)] {
+                    if flip_at >= pkt.len() {
+                        continue;
+                    }
+                    let mut forged = pkt.to_vec();
+                    forged[flip_at] ^= 0x01;
+                    for before in [true, false] {
+                        let mut b = bytes[..start].to_vec();
+                        if before {
+                            b.extend_from_slice(&forged);
+                            b.extend_from_slice(pkt);
+                        } else {
+                            b.extend_from_slice(pkt);
+                            b.extend_from_slice(&forged);
+                        }
+                        b.extend_from_slice(&bytes[start + hl + bl..]);
+                        evals += 1;
+                        let Ok(k) = SignedPublicKey::from_bytes(&b[..]) else { continue };
+                        if k.verify_bindings().is_err() {
+                            continue;
+                        }
+                        let re = k.to_bytes().unwrap_or_default();
+                        if let Some(views) = component_views(&re) {
+                            for (t, v) in views {
+                                if !orig.iter().any(|(ot, ov)| *ot == t && *ov == v) {
+                                    o.push(
+                                        "C02:cert:forged-signature-next-to-a-genuine-one-accepted".to_string(),
+                                        format!("{c:?}: a copy of the signature packet at offset {start} with one bit of its {what} changed, placed {} the genuine one: from_bytes + verify_bindings accept the certificate with the forged packet in it", if before { "before" } else { "after" }),
+                                    );
+                                }
+                            }
+                        }
+                    }
+                }
+            }
+        }
+    }
     o.evals = evals.max(1);
     if o.viol.is_empty() {
         o.class = format!("accepted-components-authentic ({}% accepted)", if evals > 0 { accepted * 100 / evals } else { 0 });
@@ -712,7 +768,7 @@ pub fn check(ctx: &Ctx) {
     ctx.run_space(
         "certificates",
         true,
-        "transferable public keys (with an encryption subkey; with a signing subkey carrying an embedded back signature + 2 user ids): EVERY single-bit flip of the whole certificate; when SignedPublicKey::from_bytes + verify_bindings accept, every packet of the accepted certificate must be one of the original's (keys and signatures compared by protected abstract value): nothing forged is ever bound",
+        "transferable public keys (with an encryption subkey; with a signing subkey carrying an embedded back signature + 2 user ids): EVERY single-bit flip of the whole certificate; when SignedPublicKey::from_bytes + verify_bindings accept, every packet of the accepted certificate must be one of the original's (keys and signatures compared by protected abstract value): nothing forged is ever bound; also a forged copy of every signature packet (one bit of hashed area / signature value changed) placed before / after the genuine one",
         cc.into_par_iter(),
         run_cert,
     );
